@@ -22,7 +22,7 @@ var zeros = make([]byte, 1<<24+1)
 func runFrameHeaders(c *hx.Ctx) {
 	lens := []uint32{0, 1, 8, 9, 255, 256, 16383, 16384, 16385, 65535, 65536, 1 << 20}
 	sids := []uint32{0, 1, 2, 3, 255, 256, 65535, 65536, 1<<24 - 1, 1 << 24, 1<<31 - 1, 1 << 31, 1<<31 + 5, 1<<32 - 1}
-	m := c.N(400, 6000)
+	m := c.N(400, 4000)
 	for k := 0; k < m; k++ {
 		l := lens[c.Rng.Intn(len(lens))]
 		switch c.Rng.Intn(40) {
